@@ -13,6 +13,7 @@ import (
 	"go/ast"
 	"go/token"
 	"go/types"
+	"strconv"
 
 	"go.uber.org/nilaway/annotation"
 	"go.uber.org/nilaway/config"
@@ -37,7 +38,7 @@ func c05NewPass() *analysishelper.EnhancedPass {
 	return analysishelper.NewEnhancedPass(&analysis.Pass{Fset: fset, Pkg: c05Pkg,
 		ResultOf:        map[*analysis.Analyzer]interface{}{config.Analyzer: &config.Config{}},
 		AllPackageFacts: func() []analysis.PackageFact { return nil },
-		TypesInfo: &types.Info{Types: map[ast.Expr]types.TypeAndValue{}, Defs: map[*ast.Ident]types.Object{}, Uses: map[*ast.Ident]types.Object{}}})
+		TypesInfo:       &types.Info{Types: map[ast.Expr]types.TypeAndValue{}, Defs: map[*ast.Ident]types.Object{}, Uses: map[*ast.Ident]types.Object{}}})
 }
 
 func c05NewPassSym() *analysishelper.EnhancedPass {
@@ -46,7 +47,8 @@ func c05NewPassSym() *analysishelper.EnhancedPass {
 }
 
 func c05NewFunc(pos token.Pos) *types.Func {
-	sig := types.NewSignatureType(nil, nil, nil, types.NewTuple(types.NewVar(token.NoPos, c05Pkg, "x", types.Typ[types.Int])), nil, false)
+	sig := types.NewSignatureType(nil, nil, nil, types.NewTuple(types.NewVar(token.NoPos, c05Pkg, "x", types.Typ[types.Int])),
+		types.NewTuple(types.NewVar(token.NoPos, c05Pkg, "", types.Typ[types.Int]), types.NewVar(token.NoPos, c05Pkg, "", types.Typ[types.Int])), false)
 	return types.NewFunc(pos, c05Pkg, "f", sig)
 }
 
@@ -54,11 +56,13 @@ func c05NewFuncSym(pos token.Pos) *types.Func { return types.NewFunc(pos, nil, "
 
 func c05SiteStub(p *primitivizer, key annotation.Key, isDeep bool) primitiveSite {
 	repr := "other"
-	switch key.(type) {
+	switch k := key.(type) {
 	case *annotation.GlobalVarAnnotationKey:
 		repr = "Global Variable v"
 	case *annotation.CallSiteParamAnnotationKey:
 		repr = "callsite"
+	case *annotation.RetAnnotationKey:
+		repr = "Result " + strconv.Itoa(k.RetNum)
 	}
 	pos := int(key.Object().Pos())
 	return primitiveSite{Position: token.Position{Filename: "f.go", Offset: pos - 1, Line: 1, Column: pos}, PkgPath: "p", Repr: repr, IsDeep: isDeep}
@@ -70,14 +74,14 @@ func c05FullTriggerStub(p *primitivizer, t annotation.FullTrigger) primitiveFull
 }
 
 const (
-	l2Source   = iota // Always -> site a
-	l2Sink            // site a -> Always
-	l2Edge            // a -> b
-	l2Single          // Always -> Always
-	l2CtlSrc          // [controller c] Always -> b
-	l2CtlEdge         // [controller c] a -> b
-	l2AnnNil          // annotation: a nilable   (replayed before ObservePackage)
-	l2AnnNonnil       // annotation: a nonnil
+	l2Source    = iota // Always -> site a
+	l2Sink             // site a -> Always
+	l2Edge             // a -> b
+	l2Single           // Always -> Always
+	l2CtlSrc           // [controller c] Always -> b
+	l2CtlEdge          // [controller c] a -> b
+	l2AnnNil           // annotation: a nilable   (replayed before ObservePackage)
+	l2AnnNonnil        // annotation: a nonnil
 	l2Kinds
 )
 
